@@ -641,3 +641,19 @@ Proof.
   - apply Hs, is_lf_ok.
   - apply Hs, is_cr_or_lf_ok.
 Qed.
+
+(* ---- to_bstring --------------------------------------------------------------------------- *)
+
+Lemma L_to_bstring c :
+  (forallb (fun p => clean (snd p)) (present c) = true -> to_bstring c = Ok (encode (present c))) /\
+  (forallb (fun p => clean (snd p)) (present c) = false -> to_bstring c = Panic) /\
+  to_bstring c <> OutOfFuel /\ (forall e, to_bstring c <> Err e).
+Proof.
+  unfold to_bstring. destruct (write_to c) as [out r] eqn:E. repeat split.
+  - intros H. assert (W : write_to c = (encode (present c), Ok tt)) by (apply L_write_ok_iff; auto).
+    rewrite E in W. inversion W. reflexivity.
+  - intros H. destruct r as [[]|e| |]; try reflexivity.
+    apply L_write_ok_iff in E. destruct E as [Hc _]. congruence.
+  - destruct r; discriminate.
+  - intros e. destruct r; discriminate.
+Qed.
